@@ -6,3 +6,12 @@ add("C02", "exploration",
     "Trusts the harness's own raw parser/serialiser and that net/http semantics of the pinned Go toolchain are the deployment's. "
     "Domain excludes repeated singleton fields, empty Accept-Encoding/User-Agent, Expect, CONNECT, absolute-form targets.",
     "property-based testing (rapid): grammar-generated requests, round-trip oracle at a recording backend", "3/C02")
+add("C03", "exploration",
+    "Generated backend responses (grammar over interim 1xx, final status 200-599, repeated/empty/long fields, Set-Cookie, hop-by-hop "
+    "fields, three framings, chunk sizes incl. 1-byte first chunk, declared/undeclared/comma-joined trailers, pauses between writes) "
+    "are served by a scripted raw-TCP backend and by an h2c backend behind the real agent (-race) and server binaries; a raw client "
+    "compares status, every end-to-end field in both directions (nothing lost, nothing invented), body and trailers. Race reports of "
+    "the binaries count as violations. Sampling of inputs and schedules, not proof.",
+    "Trusts net/http's client-side response parser used by the harness client. Date and Content-Type added by the front hop when the "
+    "backend sent none, and re-framing (Content-Length/Transfer-Encoding/Trailer/Connection), are allowed.",
+    "property-based testing (rapid): grammar-generated responses, two-sided round-trip oracle at a raw client + race detector", "3/C03")
